@@ -63,7 +63,15 @@ type world struct {
 	basegen int
 	gen     int
 	htbad   string
+	// the htpasswd file a malformed attempt of the current history used; it is repaired after
+	// the attempt and the history's final valid load names it (the outcome of a load depends on
+	// the configuration and the environment as they are then, not on the earlier failure)
+	finalUsesHt bool
+	htN         int
 }
+
+const htGood = "alice:{SHA}W6ph5Mm5Pz8GgiULbPgzG37mj9g=\nbob:{SHA}W6ph5Mm5Pz8GgiULbPgzG37mj9g=\n" // password: password
+const htBad = "alice:{SHA}W6ph5Mm5Pz8GgiULbPgzG37mj9g=\nthis line has no colon\nbob:{SHA}W6ph5Mm5Pz8GgiULbPgzG37mj9g=\n"
 
 func (w *world) root(gen int) string {
 	d := filepath.Join(w.dir, "g"+strconv.Itoa(gen))
@@ -102,7 +110,10 @@ func (w *world) kindLines(kind string, gen int) []string {
 	case "htpasswd_missing":
 		return []string{"basicauth / u htpasswd=" + filepath.Join(w.dir, "no-such-htpasswd")}
 	case "htpasswd_malformed":
-		return []string{"basicauth / u htpasswd=" + w.htbad}
+		// (the file name is taken relative to the site root)
+		return []string{"basicauth / bob htpasswd=../" + filepath.Base(w.htbad)}
+	case "final_htpasswd":
+		return []string{"basicauth / bob htpasswd=../" + filepath.Base(w.htbad)}
 	case "badarg_errors":
 		return []string{"errors {\n\t\t404\n\t}"}
 	case "failstartup":
@@ -123,7 +134,11 @@ func (w *world) config(a attempt, gen int) casket.Input {
 	if a.S == "reload" {
 		lines = nil // one 'on' per configuration
 	}
-	lines = append(lines, w.kindLines(a.K, gen)...)
+	kk := a.K
+	if a.K == "ok" && w.finalUsesHt {
+		kk = "final_htpasswd"
+	}
+	lines = append(lines, w.kindLines(kk, gen)...)
 	b.WriteString(w.site(w.ports["n1"], root, lines...))
 	second := w.ports["n2"]
 	if a.K == "listen_busy" {
@@ -146,7 +161,7 @@ func (w *world) listening() ([]string, error) {
 	if err != nil {
 		return nil, err
 	}
-	names := map[string]bool{}
+	names := map[string]int{}
 	for _, e := range fds {
 		fd, err := strconv.Atoi(e.Name())
 		if err != nil {
@@ -176,12 +191,17 @@ func (w *world) listening() ([]string, error) {
 			}
 		}
 		if name != "busy" { // the harness's own listener
-			names[name] = true
+			names[name]++
 		}
 	}
 	var out []string
-	for n := range names {
+	for n, k := range names {
 		out = append(out, n)
+		// further descriptors of the same listening socket (copies made for a reload) count:
+		// at an observation point every socket is held exactly once
+		for i := 1; i < k; i++ {
+			out = append(out, fmt.Sprintf("%s(copy %d)", n, i))
+		}
 	}
 	sort.Strings(out)
 	if len(out) == 0 {
@@ -261,8 +281,6 @@ func TestC08(t *testing.T) {
 	w.busy = hx.ListenFresh()
 	defer w.busy.Close()
 	w.ports["busy"] = w.busy.Addr().(*net.TCPAddr).Port
-	w.htbad = filepath.Join(w.dir, "htpasswd-bad")
-	os.WriteFile(w.htbad, []byte("this line has no colon\n"), 0o644)
 	w.gen, w.basegen = 1, 1
 	w.base, err = casket.Start(w.baseConfig(1))
 	if err != nil {
@@ -296,7 +314,16 @@ func TestC08(t *testing.T) {
 		var evs []event
 		evs = append(evs, event{Ev: "reset", Hooks: o0.Hooks, Basegen: 1, Key: h.key(), Keypos: "before"})
 		atts := append(append([]attempt{}, h.Attempts...), attempt{S: "start", K: "ok"}) // the final valid load
-		for _, a := range atts {
+		w.htN++
+		w.htbad = filepath.Join(w.dir, fmt.Sprintf("htpasswd-%d", w.htN))
+		w.finalUsesHt = false
+		usedHt := false
+		for ai, a := range atts {
+			if a.K == "htpasswd_malformed" {
+				os.WriteFile(w.htbad, []byte(htBad), 0o644)
+				usedHt = true
+			}
+			w.finalUsesHt = ai == len(atts)-1 && usedHt
 			w.gen++
 			gen := w.gen
 			in := w.config(a, gen)
@@ -316,6 +343,9 @@ func TestC08(t *testing.T) {
 				return e
 			})
 			durs[a.S] += time.Since(t0)
+			if a.K == "htpasswd_malformed" {
+				os.WriteFile(w.htbad, []byte(htGood), 0o644) // the operator repairs the file
+			}
 			if hung {
 				res.Add(hx.Mismatch{Key: "C08/hang/" + a.S + ":" + a.K, What: fmt.Sprintf("attempt %s of a %s configuration did not return within 15 s in history %s", a.S, a.K, h.key()), Case: h})
 				aborted = true
@@ -336,7 +366,11 @@ func TestC08(t *testing.T) {
 			// observe; a started second instance must answer like a fresh one, then it is stopped
 			if rerr == nil && a.S == "start" {
 				addr := "127.0.0.1:" + strconv.Itoa(w.ports["n1"])
-				rr, e := hx.OneShot(addr, "GET", "/f.txt", addr)
+				var hdr []string
+				if w.finalUsesHt {
+					hdr = []string{"Authorization: Basic Ym9iOnBhc3N3b3Jk"} // bob:password
+				}
+				rr, e := hx.OneShot(addr, "GET", "/f.txt", addr, hdr...)
 				if e != nil || rr.Status != 200 || string(rr.Body) != "gen="+strconv.Itoa(gen) {
 					res.Add(hx.Mismatch{Key: "C08/valid-load-misbehaves/" + a.S, What: fmt.Sprintf("after history %s a valid configuration started but does not answer like in a fresh process: %v %+v", h.key(), e, rr), Case: h})
 				}
